@@ -119,6 +119,7 @@ def run_level_check(prop, tier, panel_names, level="model_checking", design_cfgs
                                 detail={"event": evd, "tags": sc.get("tags"),
                                         "noise": sc["noise"]["mode"],
                                         "crash_msg": summ.get("crash_msg", "")[:80],
+                                        "crash_src": summ.get("crash_src", "")[:120],
                                         "scenario": sc})
                 else:
                     other_props[clause] = other_props.get(clause, 0) + 1
